@@ -472,6 +472,24 @@ RemoveFlushedCov(ev) ==
 RestoredTask(b) == [st |-> IF b.st = "preparing" THEN "waiting" ELSE b.st,
                     sub |-> IF b.st = "preparing" THEN b.sub - 1 ELSE b.sub,
                     flows |-> b.flows, held |-> b.held, sat |-> b.sat]
+\* C43: the stop point of a workflow that shut itself down at it is forgotten; otherwise it survives a restart
+\* (the latter is C43_StopPointKept, judged at every later iteration)
+BootStopViol(ev) ==
+  Chk("C43_StopPointForgotten",
+      \* (a plain restart: back to the final cycle point)
+      (ev.restart /\ env.downkind = "auto" /\ env.cmdStop # NoPoint) => ev.stop_point = W.fcp)
+\* a clean stop request waits for the active jobs
+SchedStopViol(ev) ==
+  \* (jobs that were out when the stop was requested)
+  Chk("C43_CleanStopWaits",
+      ev.reason = "REQUEST(CLEAN)" =>
+         \A i \in SyncIds(ev) \cap env.activeAtCleanReq : SyncRec(ev, i).st \notin {"submitted", "running"})
+  \* recorded separately (known finding): a task that was still preparing when the clean stop was requested does
+  \* not hold the stop back (TaskPool.can_stop only looks at submitted/running tasks), but its jobs-submit
+  \* command is executed while the process pool drains: the scheduler exits with that job out
+  \cup Chk("C43_CleanStopWaits_JobSubmittedDuringShutdown",
+      ev.reason = "REQUEST(CLEAN)" =>
+         \A i \in SyncIds(ev) \ env.activeAtCleanReq : SyncRec(ev, i).st \notin {"submitted", "running"})
 BootViol(ev) ==
   IF ~(ev.restart /\ env.downkind = "stop") THEN {}
   ELSE Chk("C19_RestoreProjection",
@@ -525,6 +543,12 @@ CanRunAtSync(ev, i) ==
      \/ s.st \in ActiveStatuses
      \/ (s.st = "waiting" /\ ~s.rh /\ s.preok)
 PartiallySat(ev, i) == LET s == SyncRec(ev, i) IN s.st = "waiting" /\ s.sat # {} /\ ~s.preok /\ Pt(i) <= StopPt
+SetStopQuiescent(ev) ==
+     \A i \in SyncIds(ev) : LET s == SyncRec(ev, i) IN
+        /\ s.st \notin ActiveStatuses
+        /\ ~(s.st = "waiting" /\ ~s.rh /\ s.preok /\ ~s.held /\ s.xok /\ Pt(i) <= StopPt)
+        /\ ~(s.st \in FinalStatuses /\ ~Complete(W, Name(i), s.outs))
+        /\ ~PartiallySat(ev, i)
 SetStopViol(ev) ==
   (ev.mode = "AUTO" /\ ~env.hadStopTask) =>
      \A i \in SyncIds(ev) : LET s == SyncRec(ev, i) IN
@@ -607,6 +631,10 @@ EndViol(ev) ==
   \*    to be parented throughout (TaskDef.next_point_parentless), so later parentless points are missed
   \cup Chk("C01_ExactClosure_ParentlessPointBehindParentedOne",
            clean => {i \in (Expected \ Launched) \cap NeverReached : i[1] \notin W.seqtasks} = {})
+  \* with a stop task the scheduler stops once that task has succeeded
+  \cup Chk("C43_StopTaskStops",
+           (env.cmdStopTask[1] # "none" /\ <<env.cmdStopTask[1], env.cmdStopTask[2], "succeeded">> \in done
+            /\ env.downkind # "crash") => ev.reason = "AUTOMATIC")
   \cup Chk("C01_ShutsDown", completable => ev.reason = "AUTOMATIC")
   \cup Chk("C04_NoRunaheadDeadlock", completable => ev.reason = "AUTOMATIC")
   \cup Chk("C43_ShutdownWhenNothingLeft", (completable /\ env.stop # NoPoint) => ev.reason = "AUTOMATIC")
@@ -648,6 +676,7 @@ EndViol(ev) ==
 EndCov(ev) == Cov("C10_FinalMatchesJob", env.succeeded # {} /\ ev.reason \in {"AUTOMATIC", "stalled", "quiescent"})
               \cup Cov("C10_FinalMatchesJobUnderFaults", Opt.faults /\ env.succeeded # {})
               \cup Cov("C43_ShutdownWhenNothingLeft", env.stop # NoPoint /\ Opt.allcomplete /\ ~Opt.stopreq)
+              \cup Cov("C43_StopTaskStops", env.cmdStopTask[1] # "none" /\ <<env.cmdStopTask[1], env.cmdStopTask[2], "succeeded">> \in done)
               \cup Cov("C19_SameOutcome", Opt.hastwin /\ env.downkind = "stop")
               \cup Cov("C20_NoLoss", Opt.hastwin /\ env.downkind = "crash")
               \cup Cov("C01_ExactClosure", ~Opt.manual /\ ~env.incomplete /\ ev.reason = "AUTOMATIC")
@@ -692,6 +721,9 @@ NextEnv(ev) ==
   CASE ev.e = "sched_stop" /\ ev.reason # "AUTOMATIC" ->
          [env EXCEPT !.prestop = [i \in SyncIds(ev) |-> SyncRec(ev, i)], !.prescal = Scalars(ev),
                      !.downkind = IF @ = "crash" THEN "crash" ELSE "stop"]
+    [] ev.e = "sched_stop" /\ ev.reason = "AUTOMATIC" -> [env EXCEPT !.downkind = "auto"]
+    [] ev.e = "set_stop" /\ ev.mode = "REQUEST_CLEAN" ->
+         [env EXCEPT !.activeAtCleanReq = {i \in SyncIds(ev) : SyncRec(ev, i).st \in {"submitted", "running"}}]
     [] ev.e = "crash" -> [env EXCEPT !.prestop = pool, !.downkind = "crash",
                                      !.committedAtCrash = env.committed, !.jobsSinceBoot = {}, !.spawnedSinceBoot = {},
                                      !.earlyCrash = @ \/ ~env.poolcommitted]
@@ -720,6 +752,8 @@ NextEnv(ev) ==
                      !.rm = IF ev.name = "remove_tasks"
                             THEN [active |-> TRUE, ok |-> ~@.active, ids |-> ev.ids, flow |-> ev.flow]
                             ELSE [@ EXCEPT !.ok = FALSE],
+                     !.cmdStopTask = IF ev.name = "stop" /\ ev.stoptask[1] # "none" /\ ev.stoptask[1] \in W.tasks
+                                     THEN ev.stoptask ELSE @,
                      !.cmdDone0 = done,
                      !.cmdpre = pool, !.cmdname = ev.name, !.cmdids = ev.ids, !.cmdflow = ev.flow, !.forcedSince = {},
                      !.trig = IF ev.name = "force_trigger_tasks"
@@ -764,6 +798,9 @@ NextEnv(ev) ==
          [env EXCEPT !.stop = ev.stop_point, !.tohold = ev.tasks_to_hold, !.holdpt = ev.hold_point,
                      !.flowctr = ev.flow_counter,
                      !.dueprev = IF ev.e = "loop_end" THEN DueNow(ev) ELSE {},
+                     \* (a stop point that was reached - the workflow shut itself down - is not in force after a restart)
+                     !.cmdStop = IF ev.e = "boot" /\ env.downkind = "auto" THEN NoPoint ELSE @,
+                     !.stop0 = IF ev.e = "boot" /\ ~ev.restart THEN ev.stop_point ELSE @,
                      \* a succeeded signature is forgotten once no pooled task still waits for it
                      !.xtOK = IF ev.e = "loop_end"
                               THEN {g \in @ : \E i \in SyncIds(ev) : g \in SyncRec(ev, i).xneed} ELSE {},
@@ -790,6 +827,12 @@ Violations(ev) ==
     [] ev.e = "loop_end" -> LoopEndViol(ev) \cup XtLoopViol(ev)
     [] ev.e = "xt_call" -> XtCallViol(ev)
     [] ev.e = "set_stop" -> Chk("C03_ShutdownQuiescent", SetStopViol(ev))
+                            \* with a stop task, the automatic stop comes only once that task has succeeded (or the
+                            \* workflow has nothing left to do anyway)
+                            \cup Chk("C43_StopTaskNotEarly",
+                                     (ev.mode = "AUTO" /\ env.hadStopTask /\ env.cmdStopTask[1] # "none") =>
+                                        (<<env.cmdStopTask[1], env.cmdStopTask[2], "succeeded">> \in done
+                                         \/ SetStopQuiescent(ev)))
     [] ev.e = "stall" -> Chk("C03_StallIsReal", StallViol(ev))
                          \* a runahead-limited task that lies within the limit of the present pool is about to be
                          \* released and may run: the workflow is not stalled
@@ -798,7 +841,8 @@ Violations(ev) ==
                                      ~(s.st = "waiting" /\ s.rh /\ ~s.held /\ Pt(i) <= StopPt
                                        /\ Pt(i) <= RunaheadLimit(W, Min({Pt(j) : j \in SyncIds(ev)}), ev.maxfut, StopPt)))
     [] ev.e = "end" -> EndViol(ev)
-    [] ev.e = "boot" -> BootViol(ev)
+    [] ev.e = "boot" -> BootViol(ev) \cup BootStopViol(ev)
+    [] ev.e = "sched_stop" -> SchedStopViol(ev)
     [] ev.e = "quiescent" -> QuiescentViol(ev)
     [] ev.e = "merge" -> MergeViol(ev)
     [] ev.e = "ds_update" -> DsViol(ev)
@@ -823,7 +867,9 @@ Covered(ev) ==
     [] ev.e = "set_stop" -> Cov("C03_ShutdownQuiescent", ev.mode = "AUTO")
     [] ev.e = "stall" -> {"C03_StallIsReal"}
     [] ev.e = "end" -> EndCov(ev)
-    [] ev.e = "boot" -> BootCov(ev)
+    [] ev.e = "boot" -> BootCov(ev) \cup Cov("C43_StopPointForgotten", ev.restart /\ env.downkind = "auto" /\ env.cmdStop # NoPoint)
+                          \cup Cov("C43_StopPointKeptAcrossRestart", ev.restart /\ env.downkind = "stop" /\ env.cmdStop # NoPoint)
+    [] ev.e = "sched_stop" -> Cov("C43_CleanStopWaits", ev.reason = "REQUEST(CLEAN)")
     [] ev.e = "quiescent" -> QuiescentCov(ev)
     [] ev.e = "ds_update" -> DsCov(ev)
     [] ev.e = "merge" -> Cov("C08_MergeIsUnion", ev.added # {} /\ ev.added # ev.before)
@@ -842,7 +888,7 @@ Init == /\ tid \in DOMAIN Runs
         /\ hist = <<>>
         /\ env = [stop |-> NoPoint, tohold |-> {}, holdpt |-> NoPoint, restarted |-> FALSE, incomplete |-> FALSE,
                   prestop |-> <<>>, prescal |-> <<>>, downkind |-> "none", committed |-> {}, poolcommitted |-> FALSE, lostAtCrash |-> {}, earlyCrash |-> FALSE, hadStopTask |-> FALSE, hadDup |-> FALSE, committedAtCrash |-> {}, jobsSinceBoot |-> {}, spawnedSinceBoot |-> {}, jobs |-> {}, succeeded |-> {}, failedjobs |-> {}, tainted |-> {}, seenMsgs |-> {}, xtActive |-> {}, xtLast |-> <<>>, xtOK |-> {}, xtOKold |-> {}, xtEverOK |-> {}, xtLastOK |-> {}, xtNeeders |-> <<>>, flowsEver |-> {},
-                  trig |-> [ids |-> {}, done |-> {}, n |-> <<>>, dflt |-> FALSE, live |-> {}, stale |-> {}, ran |-> {}], clock |-> 0, dueprev |-> {}, cmdStop |-> NoPoint, rm |-> [active |-> FALSE, ok |-> FALSE, ids |-> {}, flow |-> {}], cmdDone0 |-> {}, cmdpre |-> <<>>, cmdname |-> "none", cmdids |-> {},
+                  trig |-> [ids |-> {}, done |-> {}, n |-> <<>>, dflt |-> FALSE, live |-> {}, stale |-> {}, ran |-> {}], clock |-> 0, dueprev |-> {}, cmdStop |-> NoPoint, rm |-> [active |-> FALSE, ok |-> FALSE, ids |-> {}, flow |-> {}], activeAtCleanReq |-> {}, stop0 |-> -999, cmdStopTask |-> <<"none", -999>>, cmdDone0 |-> {}, cmdpre |-> <<>>, cmdname |-> "none", cmdids |-> {},
                   cmdflow |-> {}, forcedSince |-> {}, completedIn |-> {}, flowctr |-> 0]
         /\ viol = {}
         /\ cov = {}
